@@ -69,6 +69,10 @@ def r_cmp(F, R):
             a1 = operand_tree(ctx, t["args"][1])
             r0 = roots_of(a0)
             r1 = roots_of(a1)
+            if not (r0 | r1) & {("arg", 1), ("arg", 2)}:
+                # compares intermediate results (an Ordering with a constant, two lengths already
+                # taken): not a comparison of the two values' contents
+                continue
             order_ok = r0 == {("arg", 1)} and r1 == {("arg", 2)}
             if b.name in ("eq", "ne") and r0 == {("arg", 2)} and r1 == {("arg", 1)}:
                 order_ok = True  # equality is symmetric: either order describes the same relation
